@@ -501,6 +501,15 @@ func (e *Engine) genFunc(c *Contract, fn *ssa.Function, mode Mode, known map[str
 	e.entryState = fr.entry
 	env := e.contractEnv(c, fn, fr.params, st)
 	env.old = fr.entry
+	// a function literal under contract: the variables it captures are visible in its
+	// clauses by name, with the value they hold when the literal is entered
+	for i, fv := range fn.FreeVars {
+		pt, isPtr := fv.Type().(*types.Pointer)
+		if _, taken := env.vars[fv.Name()]; taken || !isPtr {
+			continue
+		}
+		env.vars[fv.Name()] = TV{V: e.load(nil, st, fr.params[len(fn.Params)+i], pt.Elem(), "spec"), T: pt.Elem()}
+	}
 	// preconditions
 	pre := "true"
 	for _, r := range c.Requires {
